@@ -1516,21 +1516,28 @@ func (c *Compiler) compileRepeatMin(sub *syntax.Regexp, minCount int, nonGreedy 
 		return c.compileStar(sub, nonGreedy)
 	}
 
-	// Concatenate minCount copies + star
+	// x{n,} is n-1 copies followed by x+, as regexp/syntax simplifies it. The
+	// alternative x^n x* accepts the same strings but is a different program
+	// when x can match empty: the star of a nullable body gives up at the first
+	// empty iteration, the plus goes on ((?:\b|.){2,} on "  ab c": [0 6], and
+	// [0 2] with the star; (a|){2,} on "aa": group [1 2], not [2 2]).
 	var subs []*syntax.Regexp
-	for i := 0; i < minCount; i++ {
+	for i := 0; i < minCount-1; i++ {
 		subs = append(subs, sub)
 	}
-	// Create synthetic star with correct NonGreedy flag
-	starFlags := syntax.Flags(0)
+	// Create synthetic plus with correct NonGreedy flag
+	plusFlags := syntax.Flags(0)
 	if nonGreedy {
-		starFlags |= syntax.NonGreedy
+		plusFlags |= syntax.NonGreedy
 	}
 	subs = append(subs, &syntax.Regexp{
-		Op:    syntax.OpStar,
-		Flags: starFlags,
+		Op:    syntax.OpPlus,
+		Flags: plusFlags,
 		Sub:   []*syntax.Regexp{sub},
 	})
+	if len(subs) == 1 {
+		return c.compileRegexp(subs[0])
+	}
 	return c.compileConcat(subs)
 }
 
